@@ -188,6 +188,17 @@ def units(tier, seed=0):
         if r in ISA:
             us += famcheck.family_units({ISA[r].family}, [7], T, only=[r], tag='/prehistory', prehistory='other-iset',
                                         fix=fx)
+    # ... and in the same instruction set from a state with unrelated flags / IT state: rows whose decode takes operands
+    # from the state (set-flags from InITBlock(), the shifter / modified-immediate carry)
+    PRE2 = [('AddImmediateThumbT2', {'Rdn': 1, 'imm8': 1}), ('MovImmediateT1', {'Rd': 0, 'imm8': 0}),
+            ('MovImmediateA1', {'cond': 14, 'S': 1, '_sb0': 0, 'Rd': 2, 'imm12': 1}),
+            ('AndImmediateT1', {'i': 0, 'S': 1, 'Rn': 1, 'imm3': 0, 'Rd': 2, 'imm8': 0x55}),
+            ('TstImmediateA1', {'cond': 14, 'Rn': 3, '_sb0': 0, 'imm12': 0xFF}),
+            ('AndRegisterT2', {'S': 1, 'Rn': 2, '_sb0': 0, 'imm3': 0, 'Rd': 3, 'imm2': 0, 'type': 0, 'Rm': 4})]
+    for r, fx in PRE2:
+        if r in ISA:
+            us += famcheck.family_units({ISA[r].family}, [7], T, only=[r], tag='/prehistory-same-iset',
+                                        prehistory='same-iset', fix=fx)
     # construction isolation: an instance built after a foreign one starts in the state of one built alone
     us.append(UnitSpec('construct/after-foreign/v6-pmsa', 'vf.c20', 'mk_construct', {}))
     us.append(UnitSpec('construct/after-foreign/same-cfg-stepped', 'vf.c20', 'mk_construct',
@@ -214,7 +225,9 @@ META = {
                    'fresh solver variables before emulate_cycle and the step must still equal the oracle step, which '
                    'is a function of configuration, architectural state and memory only -- so nothing executed before '
                    'a snapshot can influence the trace after it; a symbolic run is itself a function of its declared '
-                   'inputs, and every counterexample is replayed in a fresh process. (b) No global writes: all '
+                   'inputs, and every counterexample is replayed in a fresh process; prehistory units execute the same '
+                   'concrete instruction bits first in the other instruction set, or in the same one from a state with '
+                   'unrelated flags and IT state, re-install the snapshot and require the step to match the oracle. (b) No global writes: all '
                    'mutable module-level objects and class-level data attributes of armulator.* (found by reflection) are snapshotted around the step '
                    'on every explored path and must be unchanged. (c) Isolation: a second instance is created between '
                    'construction and step. With an equal configuration the step is unaffected; together with (a) and '
